@@ -5,6 +5,7 @@ import (
 	"sort"
 	"strings"
 	"testing"
+	"time"
 )
 
 // ---- reference model ------------------------------------------------------------------------------
@@ -62,9 +63,65 @@ type model struct {
 func newModel(s int64) *model { return &model{S: s, Metrics: map[string]*mMetric{}} }
 
 const hourMs = int64(3600_000)
+const dayMs = 24 * hourMs
 
 // familyOf: day-type intervals keep one family per hour.
 func familyOf(ts int64) int64 { return ts - mod(ts, hourMs) }
+
+// Interval types (pkg/timeutil/interval.go Type): < 5 min "day" (segment = day, family = hour),
+// 5 min .. < 1 h "month" (segment = month, family = day), >= 1 h "year" (segment = year, family = month).
+// The slot of a point is floor((timestamp - familyStart) / interval). Calendar: UTC.
+func intervalType(s int64) string {
+	switch {
+	case s >= hourMs:
+		return "year"
+	case s >= 5*60_000:
+		return "month"
+	default:
+		return "day"
+	}
+}
+
+// familyOfIv returns the start of the family of ts for a database with storage interval s.
+func familyOfIv(s, ts int64) int64 {
+	switch intervalType(s) {
+	case "year":
+		t := timeOf(ts)
+		return time.Date(t.Year(), t.Month(), 1, 0, 0, 0, 0, time.UTC).UnixMilli()
+	case "month":
+		return ts - mod(ts, dayMs)
+	default:
+		return familyOf(ts)
+	}
+}
+
+// familyEndIv returns the last millisecond of the family that starts at fam.
+func familyEndIv(s, fam int64) int64 {
+	switch intervalType(s) {
+	case "year":
+		t := timeOf(fam)
+		return time.Date(t.Year(), t.Month()+1, 1, 0, 0, 0, 0, time.UTC).UnixMilli() - 1
+	case "month":
+		return fam + dayMs - 1
+	default:
+		return fam + hourMs - 1
+	}
+}
+
+// segmentOfIv returns the start of the segment (day / month / year) of ts.
+func segmentOfIv(s, ts int64) int64 {
+	t := timeOf(ts)
+	switch intervalType(s) {
+	case "year":
+		return time.Date(t.Year(), time.January, 1, 0, 0, 0, 0, time.UTC).UnixMilli()
+	case "month":
+		return time.Date(t.Year(), t.Month(), 1, 0, 0, 0, 0, time.UTC).UnixMilli()
+	default:
+		return ts - mod(ts, dayMs)
+	}
+}
+
+func (m *model) familyOf(ts int64) int64 { return familyOfIv(m.S, ts) }
 
 func mod(a, b int64) int64 {
 	r := a % b
@@ -112,12 +169,12 @@ func (m *model) add(metric string, tags map[string]string, fieldName, fieldType 
 		mm.Series[key] = s
 	}
 	m.seq++
-	s.Fields[fieldName] = append(s.Fields[fieldName], mPoint{TS: ts, Val: val, Seq: m.seq, Fam: familyOf(ts), Gen: gen})
+	s.Fields[fieldName] = append(s.Fields[fieldName], mPoint{TS: ts, Val: val, Seq: m.seq, Fam: m.familyOf(ts), Gen: gen})
 }
 
 // slotStart is the start of the storage slot of ts.
 func (m *model) slotStart(ts int64) int64 {
-	fam := familyOf(ts)
+	fam := m.familyOf(ts)
 	return fam + ((ts-fam)/m.S)*m.S
 }
 
@@ -770,6 +827,35 @@ func TestModelSelfTest(t *testing.T) {
 	}
 	if !likeMatch("a*", "ab") || likeMatch("a*", "ba") || !likeMatch("*a", "ba") || !likeMatch("*b*", "abc") || likeMatch("ab", "abc") {
 		t.Fatalf("likeMatch")
+	}
+	// coarse intervals: month type (family = day), year type (family = month)
+	dec31 := time.Date(2023, 12, 31, 23, 50, 0, 0, time.UTC).UnixMilli()
+	jan1 := time.Date(2024, 1, 1, 0, 0, 0, 0, time.UTC).UnixMilli()
+	if familyOfIv(600_000, dec31) != jan1-dayMs || familyOfIv(600_000, jan1+1) != jan1 || familyEndIv(600_000, jan1) != jan1+dayMs-1 {
+		t.Fatalf("month-type families")
+	}
+	if familyOfIv(4*hourMs, dec31) != time.Date(2023, 12, 1, 0, 0, 0, 0, time.UTC).UnixMilli() || familyOfIv(hourMs, jan1) != jan1 ||
+		familyEndIv(hourMs, time.Date(2024, 2, 1, 0, 0, 0, 0, time.UTC).UnixMilli()) != time.Date(2024, 3, 1, 0, 0, 0, 0, time.UTC).UnixMilli()-1 {
+		t.Fatalf("year-type families")
+	}
+	if segmentOfIv(600_000, dec31) == segmentOfIv(600_000, jan1) || segmentOfIv(hourMs, dec31) == segmentOfIv(hourMs, jan1) {
+		t.Fatalf("segments")
+	}
+	mc := newModel(4 * hourMs)
+	mc.add("m", a, "s", tSum, dec31, 1, 0)                                                                    // slot 2023-12-31 20:00
+	mc.add("m", a, "s", tSum, jan1+5*hourMs, 2, 0)                                                            // slot 2024-01-01 04:00, other family and segment
+	mc.add("m", a, "s", tSum, jan1+7*hourMs+1, 4, 0)                                                          // same slot
+	qc := mQuery{Metric: "m", Items: []selectItem{{Field: "s"}}, Start: dec31 - 3*dayMs, End: jan1 + 2*dayMs} // > 2 days: automatic interval 10m < 4h
+	exp, _, qiv = mc.eval(qc, semantics{})
+	if got, want := exp.String(), fmt.Sprintf("[] s: %d=1 %d=6\n", jan1-4*hourMs, jan1+4*hourMs); got != want || qiv != 4*hourMs {
+		t.Fatalf("got %q want %q (qiv %d)", got, want, qiv)
+	}
+	mc5 := newModel(300_000)
+	if _, _, qiv := mc5.plan(mQuery{Start: dec31 - 3*dayMs, End: jan1 + 2*dayMs}); qiv != 600_000 { // 2..7 days: 10m = 2 x 5m
+		t.Fatalf("qiv %d", qiv)
+	}
+	if _, _, qiv := mc5.plan(mQuery{Start: dec31, End: jan1 + 10*60_000, UserIv: 900_000}); qiv != 900_000 {
+		t.Fatalf("qiv %d", qiv)
 	}
 	// interval table
 	if _, _, qiv := m.plan(mQuery{Start: base, End: base + 4*hourMs}); qiv != 30_000 {
